@@ -22,7 +22,7 @@ var (
 
 	owsVocab = []string{"", "", "", " ", " ", "  ", "\t", " \t ", "\r\n ", "\n", "\r\n\t"} // the last three: a folded header line as a hand-built http.Header or a lenient front end delivers it (the parser counts CR and LF as white space)
 
-	offerParams = []string{"; charset=utf-8", ";version=2", ";q=0.1", "; a=\"b,c\"", ";charset=utf-8;v=1"}
+	offerParams = []string{"; charset=utf-8", ";version=2", ";q=0.1", "; a=\"b,c\"", ";charset=utf-8;v=1", " ; charset=utf-8", "\t;v=2"} // the last two: white space in front of the semicolon (r10)
 )
 
 func quote(s string) string {
